@@ -390,6 +390,73 @@ func c05(run *ev.Run, tier string) {
 	run.Set("destination_spellings_checked", spChecked)
 	run.Set("part2_wall_s", int(time.Since(t0).Seconds()-t1))
 
+	// part 2b: directed corners. Directories that nfpm treats as "owned by the
+	// filesystem" (a tree below /usr contains usr/bin) are implied, not declared:
+	// a non-directory at such a path still collides, in either order.
+	{
+		fsTree := filepath.Join(dir, "fstree")
+		_ = os.MkdirAll(filepath.Join(fsTree, "bin"), 0o755)
+		_ = os.WriteFile(filepath.Join(fsTree, "bin", "tool"), []byte("t\n"), 0o755)
+		tree := func() *files.Content { return &files.Content{Source: fsTree, Destination: "/usr", Type: "tree"} }
+		for _, other := range []*files.Content{
+			{Source: "/nonexistent-verif/t", Destination: "/usr/bin", Type: "symlink"},
+			{Source: fileSrc, Destination: "/usr/bin", Type: "file"},
+			{Source: fileSrc, Destination: "/usr/bin/tool", Type: "file"},
+			{Destination: "/usr/bin", Type: "ghost"},
+		} {
+			for _, order := range []bool{true, false} {
+				o := *other
+				list := files.Contents{tree(), &o}
+				if !order {
+					list = files.Contents{&o, tree()}
+				}
+				_, err := files.PrepareForPackager(list, 0o022, "rpm", false, mtime)
+				run.Case(fmt.Sprintf("fs-owned|%s|%s|%v", other.Type, other.Destination, order), true)
+				if err == nil {
+					run.Violate("C05/collision-accepted/fs-owned-tree-dir+"+other.Type, map[string]any{"other": other.Type + " " + other.Destination, "tree_first": order})
+				} else if !errors.Is(err, files.ErrContentCollision) {
+					run.Violate("C05/collision-error-not-ErrContentCollision", map[string]any{"error": err.Error()})
+				}
+			}
+		}
+		// an explicit directory at a filesystem-owned path of a tree survives
+		res, err := files.PrepareForPackager(files.Contents{{Destination: "/usr/bin", Type: "dir", FileInfo: &files.ContentFileInfo{Mode: 0o750}}, tree()}, 0o022, "rpm", false, mtime)
+		run.Case("fs-owned|explicit-dir-kept", true)
+		if err != nil {
+			run.Violate("C05/valid-list-rejected", map[string]any{"list": "dir /usr/bin + tree /usr", "error": err.Error()})
+		} else {
+			for _, c := range res {
+				if c.Destination == "/usr/bin/" && (c.Type != files.TypeDir || c.FileInfo.Mode != 0o750) {
+					run.Violate("C05/explicit-dir-replaced-by-implied", map[string]any{"type": c.Type, "mode": fmt.Sprintf("%o", c.FileInfo.Mode)})
+				}
+			}
+		}
+	}
+	// the deb changelog entry is an entry like any other: a declared entry at
+	// its path collides
+	{
+		chg := filepath.Join(dir, "changelog.yaml")
+		_ = os.WriteFile(chg, []byte("- semver: \"1.0.0\"\n  date: 2020-01-01T00:00:00Z\n  packager: \"P <p@example.com>\"\n  changes:\n    - note: \"n\"\n"), 0o644)
+		for _, typ := range []string{"file", "symlink", "dir"} {
+			s := &gen.Spec{Name: "chgpkg", Arch: "amd64", Version: "1.0.0", Maintainer: "M <m@example.com>", Description: "d", MTime: 1500000000, Changelog: chg}
+			e := &gen.Content{Dst: "/usr/share/doc/chgpkg/changelog.Debian.gz", Type: typ}
+			switch typ {
+			case "file":
+				e.Src = fileSrc
+			case "symlink":
+				e.Src = "/nonexistent-verif/t"
+			}
+			s.Contents = []*gen.Content{e}
+			res := buildYAML(s.YAML(), "deb")
+			run.Case("deb-changelog-collision|"+typ, true)
+			if res.Err == nil && res.Panic == "" {
+				run.Violate("C05/collision-accepted/deb-changelog+"+typ, map[string]any{"entry": typ + " at the changelog path"})
+			} else if res.Err != nil && !errors.Is(res.Err, files.ErrContentCollision) {
+				run.Violate("C05/collision-error-not-ErrContentCollision", map[string]any{"error": res.Err.Error()})
+			}
+		}
+	}
+
 	// part 3: generated larger lists through nfpm.PrepareForPackager
 	n3 := ncases(150, 3000, tier)
 	var big int64
